@@ -46,8 +46,41 @@ class CallsMixin(ExecBase):
                 kwargs[k.arg] = self.eval(k.value, st)
         return args, kwargs
 
+    def first_match_form(self, node, st):
+        """next((x for x in xs if p(x)), default): the FIRST element satisfying p, else default — encoded with a least-index witness"""
+        gen = node.args[0]
+        g = gen.generators[0]
+        xs = self.need(self.as_val(self.eval(g.iter, st), st, node), "l", st, node)
+        j = fresh("first_idx", IntS)
+        i = z3.Const(f"i!fm{node.lineno}_{node.col_offset}", IntS)
+        n = z3.Length(xs)
+
+        def cond_at(idx):
+            sub = st.fork()
+            self.bind_target(g.target, from_any(xs[idx]), sub, node)
+            npend = len(self.pending)
+            c = z3.BoolVal(True)
+            for test in g.ifs:
+                c = z3.And(c, self.truth(self.eval(test, sub), sub, node))
+            elt = self.as_val(self.eval(gen.elt, sub), sub, node)
+            del self.pending[npend:]
+            return c, elt
+        cj, ej = cond_at(j)
+        ci, _ = cond_at(i)
+        dflt = self.as_val(self.eval(node.args[1], st), st, node) if len(node.args) > 1 else None
+        found = fresh("first_found", BoolS)
+        self.assume(st, z3.Implies(found, z3.And(0 <= j, j < n, cj, z3.ForAll([i], z3.Implies(z3.And(0 <= i, i < j), z3.Not(ci))))))
+        self.assume(st, z3.Implies(z3.Not(found), z3.ForAll([i], z3.Implies(z3.And(0 <= i, i < n), z3.Not(ci)))))
+        if dflt is None:
+            self.may_raise(st, z3.Not(found), Exc("StopIteration"), node)
+            return ej
+        return ite_val(found, ej, dflt)
+
     def e_Call(self, node, st):
         f = node.func
+        if (isinstance(f, ast.Name) and f.id == "next" and "next" not in st.vars and node.args and isinstance(node.args[0], ast.GeneratorExp)
+                and len(node.args[0].generators) == 1 and not node.keywords):
+            return self.first_match_form(node, st)
         rn = root_name(f)
         if rn in NOOP_ROOTS and rn not in st.vars:
             return VNone
